@@ -1377,6 +1377,90 @@ let field_of = function
   | "ed" -> (Z.of_string "6554484396890773809930967563523245729705921265872317281365359162392183254199", 252)
   | "bn254" -> (Z.of_string "21888242871839275222246405745257275088548364400416034343698204186575808495617", 254)
   | f -> failwith ("unknown field " ^ f)
+(* ---------------- Ligero: several polynomials in one opening ---------------- *)
+let run_ligmulti c =
+  let fo = fo () in
+  obs1 "commit" "S" "ok";
+  if has c "dims.0" then begin
+    let wf = int1 c "wf" = 1 in
+    let n = int1 c "n" in
+    let nn = nat_of_int in
+    let undash k = let v = get c k in if v = [ "-" ] then [] else v in
+    let ml = str1 c "scheme" = "ligero_ml" in
+    let point = if ml then List.map f_of_str (undash "point_vec") else [] in
+    let z = if ml then tof Z.zero else f_of_str (str1 c "pt") in
+    let dims = Array.init n (fun i -> match List.map int_of_string (get c (Printf.sprintf "dims.%d" i)) with [ a; b; cc ] -> (a, b, cc) | _ -> failwith "dims") in
+    let omega = Array.init n (fun i -> f_of_str (str1 c (Printf.sprintf "omega.%d" i))) in
+    let rows = Array.init n (fun i -> let (nr, nc, _) = dims.(i) in Ligero.lig_matrix fo (nn nr) (nn nc) (List.map f_of_str (undash (Printf.sprintf "coeffs.%d" i)))) in
+    let enc i = let (_, _, ne) = dims.(i) in Ligero.encode fo omega.(i) (nn ne) in
+    let cext = Array.init n (fun i -> List.map (enc i) rows.(i)) in
+    let ab i = let (nr, nc, _) = dims.(i) in
+      if ml then Ligero.tensor_ml fo point (nn nc) else Result.Ok (Ligero.tensor_uni fo z (nn nc) (nn nr)) in
+    let rtape pre i = List.map f_of_str (undash (Printf.sprintf "%sr.%d" pre i)) in
+    let idx_of pre i = let (_, _, ne) = dims.(i) in
+      let sq = List.map (fun (_, b) -> List.map Z.of_string b) (indexed c (Printf.sprintf "%ssq.%d" pre i)) in
+      match CalcT.indices_of (Z.of_int ne) sq with Result.Ok l -> List.map (fun x -> nn (Z.to_int x)) l | _ -> [] in
+    if has c "p.nsq.0" then begin
+      (* the prover: one opening per polynomial, in order; the first failure ends it *)
+      let pfs = Array.make n None and ok = ref true and cls = ref "ok" in
+      for i = 0 to n - 1 do
+        if !ok then begin
+          let (_, nc, ne) = dims.(i) in
+          match ab i with
+          | Result.Ok (_, b) ->
+            (match Ligero.l_open_e fo (enc i) wf (nn nc) (nn ne) rows.(i) b (rtape "p." i) (idx_of "p." i) with
+             | Result.Ok pf -> pfs.(i) <- Some pf
+             | r -> ok := false; cls := class_of r)
+          | r -> ok := false; cls := class_of r
+        end
+      done;
+      obs1 "open" "S" !cls;
+      if !ok then begin
+        let pfs = Array.map (function Some x -> x | None -> assert false) pfs in
+        obs1 "nproofs" "N" (string_of_int n);
+        Array.iteri (fun i pf ->
+            let k x = Printf.sprintf "pf.%d.%s" i x in
+            obs (k "v") "F" (dash (fs_to pf.Ligero.lf_v));
+            obs (k "wf") "F" (match pf.Ligero.lf_wf with Some w -> dash (fs_to w) | None -> [ "none" ]);
+            obs (k "leaf_idx") "N" (dash (List.map (fun p -> string_of_int (int_of_nat p.Ligero.lpt_index)) pf.Ligero.lf_paths));
+            obs (k "col_lens") "N" (dash (List.map (fun col -> string_of_int (List.length col)) pf.Ligero.lf_cols));
+            obs (k "cols") "F" (dash (List.concat_map fs_to pf.Ligero.lf_cols))) pfs;
+        let values = Array.init n (fun i -> match ab i with Result.Ok (a, _) -> Ligero.ip fo pfs.(i).Ligero.lf_v a | _ -> tof Z.zero) in
+        obs "values" "F" (fs_to (Array.to_list values));
+        let item pre i value pf = { Ligero.li_enc = enc i; li_n_cols = (let (_, nc, _) = dims.(i) in nn nc); li_cext = cext.(i); li_ab = ab i;
+                                    li_value = value; li_pf = pf; li_r = rtape pre i; li_idx = idx_of pre i } in
+        let run pre vals proofs =
+          let m = min n (Array.length proofs) in
+          let items = List.init m (fun i -> item pre i vals.(i) proofs.(i)) in
+          decision (Ligero.l_check_array fo wf items (Array.length proofs < n)) in
+        if has c "v.nsq.0" then obs1 "check" "S" (run "v." values pfs);
+        if has c "b.nsq.0" then begin
+          let bp = int1 c "bad_pos" mod n in
+          let bad = Array.mapi (fun i v -> if i = bp then fo.Field.fadd v (f_of_str (str1 c "delta")) else v) values in
+          obs1 "check_bad" "S" (run "b." bad pfs)
+        end;
+        List.iter (fun (k, _) ->
+            let pre = Printf.sprintf "m%d." k in
+            if has c (pre ^ "skip") || not (has c (pre ^ "n")) then () else begin
+              let cnt = int1 c (pre ^ "n") and which = int1 c (pre ^ "which") and intact = str1 c (pre ^ "intact") = "1" in
+              let proofs = Array.init cnt (fun i ->
+                  let q x = Printf.sprintf "%s%d.%s" pre i x in
+                  let lens = List.map int_of_string (undash (q "col_lens")) in
+                  let flat = ref (List.map f_of_str (undash (q "cols"))) in
+                  let take len = let rec go len acc l = if len = 0 then (List.rev acc, l) else (match l with x :: t -> go (len - 1) (x :: acc) t | [] -> (List.rev acc, [])) in
+                    let (h, t) = go len [] !flat in flat := t; h in
+                  let cols = List.map take lens in
+                  let wfv = let v = get c (q "wf") in if v = [ "none" ] then None else Some (List.map f_of_str (if v = [ "-" ] then [] else v)) in
+                  (* list_extend appends a copy of proof `which`: a tampered path travels with its copy *)
+                  let ok_paths = intact || not (i = which || i >= n) in
+                  { Ligero.lf_paths = List.map (fun s -> { Ligero.lpt_index = nn (int_of_string s); Ligero.lpt_intact = ok_paths }) (undash (q "leaf_idx"));
+                    Ligero.lf_v = List.map f_of_str (undash (q "v")); Ligero.lf_cols = cols; Ligero.lf_wf = wfv }) in
+              obs1 (Printf.sprintf "mut.%d" k) "S" (run pre values proofs)
+            end) (indexed c "mut")
+      end
+    end
+  end
+
 (* ---------------- Ligero (univariate): algebraic core with an ideal column commitment ---------------- *)
 let run_ligflow c =
   let fo = fo () in
@@ -1452,6 +1536,7 @@ let calc_fuel = 40000
 let run_c13 c =
   match str1 c "sub" with
   | "ligflow" -> run_ligflow c
+  | "ligmulti" -> run_ligmulti c
   | "calct" ->
     let (q, bits) = field_of (str1 c "field") in
     let zn k = Z.of_string (str1 c k) in
